@@ -29,6 +29,12 @@ def fn(k, *body):
     return ("fn", k, tuple(body))
 
 
+def hof(elem, k, *body):
+    """a lambda declared with k parameters, called once per item of ⟨7|8⟩ by a higher-order element (map M / filter F) - i.e. through
+    the library's apply protocol with ONE argument, not through the call element - and forced in order by taking the length"""
+    return ("hof", elem, k, tuple(body))
+
+
 def lst(*items):
     return ("list", tuple(tuple(i) for i in items))
 
@@ -49,6 +55,8 @@ def render(op):
         return "X"
     if t == "lam":
         return "λ%d|%s;†" % (op[1], "".join(render(o) for o in op[2]))
+    if t == "hof":
+        return "⟨7|8⟩λ%d|%s;%sL_" % (op[2], "".join(render(o) for o in op[3]), op[1])
     if t == "fn":
         return "@f%s|%s;@f;" % ((":%d" % op[1]) if op[1] else "", "".join(render(o) for o in op[2]))
     if t == "list":
@@ -132,6 +140,18 @@ class Model:
                 res = self.pop(inner, 1)[0]            # the result is the top of the lambda's stack (a read if empty)
                 self.scopes.pop()
                 stack.append(res)
+            elif t == "hof":
+                for x in (7, 8):
+                    inner = [x]                       # exactly the values it was handed, whatever arity it declares
+                    self.scopes.append([[x], 0])
+                    self.frames.append("lam")
+                    try:
+                        self.run(op[3], inner)
+                    except _Ret:
+                        pass
+                    self.frames.pop()
+                    self.pop(inner, 1)
+                    self.scopes.pop()
             elif t == "fn":
                 args = self.pop(stack, op[1])
                 inner = list(args)
@@ -336,7 +356,8 @@ def _e2e_shard(args):
     return part.data()
 
 
-MENU_A = [Q, P1, P2, P3, PUSH, lam(1, P1, P1), lam(2, P1, P1, P1, Q), fn(1, P1, P1), lst((P1,), (Q,)), fn(1, P1, BRK, P1)]
+MENU_A = [Q, P1, P2, P3, PUSH, lam(1, P1, P1), lam(2, P1, P1, P1, Q), fn(1, P1, P1), lst((P1,), (Q,)), fn(1, P1, BRK, P1),
+          hof("M", 2, P1, P1, Q)]
 INNER = [(), (P1,), (Q,), (P1, P1), (P2,), (Q, P1), (P1, P1, P1), (PUSH, P3), (lam(1, P1, P1),), (P1, lam(0, P1), P1)]
 
 
@@ -350,6 +371,10 @@ def menu_b():
             out.append(fn(k, *body))
     out += [fn(1, P1, BRK, P1), fn(2, P1, BRK, Q), fn(0, BRK, P1), lam(1, P1, BRK, P1), lam(2, P1, P1, BRK, P1), lam(0, BRK), loop(P1, BRK, Q),
             fn(1, lam(1, P1, BRK, P1), P1), lst((BRK, P1), (Q,)), fn(1, loop(BRK), P1, P1)]
+    for k in (1, 2, 3):
+        for body in INNER[:8]:
+            out.append(hof("M", k, *body))
+    out += [hof("F", 2, P1, P1), hof("F", 3, P2), hof("M", 2, P1, BRK, P1), hof("F", 1, Q, P1, P1)]
     out += [lst((P1, P1), (P2,)), lst((Q,), (Q, P1), (P1,)), loop(P1), loop(Q), loop(P2), loop(lam(1, P1, P1)),
             lam(1, fn(1, P1, P1)), fn(2, lam(1, P1, P1), P1)]
     seen = []
@@ -360,11 +385,12 @@ def menu_b():
 
 
 def _shard(args):
-    firsts, menu, depth, input_lists = args
+    firsts, menu, depth, input_lists = args[:4]
+    minlen = args[4] if len(args) > 4 else 0
     part = explore.Partial()
     for f in firsts:
         f = f if isinstance(f[0], tuple) else (f,)     # a prefix of operations (one operation or a pair)
-        for n in range(0, depth - len(f) + 1):
+        for n in range(max(0, minlen - len(f)), depth - len(f) + 1):
             for rest in itertools.product(menu, repeat=n):
                 ops = f + rest
                 for inputs in input_lists:
@@ -400,12 +426,15 @@ def _bfs_shard(args):
 def run(tier, seed):
     rep = Report(PROP, tier, seed, "model_checking")
     quick = tier == "quick"
-    da = 4 if quick else 6
-    explore.pmap(_shard, [([f], MENU_A, 1, INPUT_LISTS) for f in MENU_A] + [([(f, g)], MENU_A, da, INPUT_LISTS) for f in MENU_A for g in MENU_A], rep, seed)
+    da = 4 if quick else 5
+    sh = [([f], MENU_A, 1, INPUT_LISTS) for f in MENU_A] + [([(f, g)], MENU_A, da, INPUT_LISTS) for f in MENU_A for g in MENU_A]
+    if not quick:   # length exactly 6 over the first ten operations
+        sh += [([(f, g)], MENU_A[:10], 6, INPUT_LISTS, 6) for f in MENU_A[:10] for g in MENU_A[:10]]
+    explore.pmap(_shard, sh, rep, seed)
     mb = menu_b()
     db = 2 if quick else 3
     explore.pmap(_shard, [([f], mb, 1, INPUT_LISTS) for f in mb] + [([(f, g) for g in mb[i:i + 8]], mb, db, INPUT_LISTS) for f in mb for i in range(0, len(mb), 8)], rep, seed)
-    n_hist = sum(len(MENU_A) ** k for k in range(1, da + 1)) * len(INPUT_LISTS) + sum(len(mb) ** k for k in range(1, db + 1)) * len(INPUT_LISTS)
+    n_hist = (sum(len(MENU_A) ** k for k in range(1, da + 1)) + (0 if quick else 10 ** 6)) * len(INPUT_LISTS) + sum(len(mb) ** k for k in range(1, db + 1)) * len(INPUT_LISTS)
     explore.pmap(_bfs_shard, [(inp, mb, 12) for inp in INPUT_LISTS], rep, seed)
     names = [t for t, _ in E2E_TEXTS]
     tl = [tuple(c) for n in range(0, 4) for c in itertools.product(names if n < 3 else names[:4], repeat=n)]
@@ -421,8 +450,8 @@ def run(tier, seed):
                        "is wrapped from outside to log (kind, scope depth, value) of each outermost read; the model is a cursor automaton "
                        "with concrete stacks",
     })
-    rep.rule = ("input lists of length 0..4 (distinct sentinels) x ALL histories of length <=%d over the 9-operation menu A "
-                "(? _ \" ∇ push, λ1 / λ2 with inner reads, a named function, a list literal) without dedup; ALL histories of length <=%d over "
+    rep.rule = ("input lists of length 0..4 (distinct sentinels) x ALL histories of length <=%d [thorough: plus length 6 over its first ten operations] over the 11-operation menu A "
+                "(? _ \" ∇ push, λ1 / λ2 with inner reads, a named function, a list literal, an early return, a map over ⟨7|8⟩ with a λ2) without dedup; ALL histories of length <=%d over "
                 "the %d-operation menu B (lambda arities 0-2 x 10 inner read sequences incl. nested lambdas, functions, list items, "
                 "loops); BFS with dedup on (cursor mod n, stack height capped at 3) to depth 12 over menu B. Distinct = (history, inputs). "
                 "End to end: main.execute_vyxal (offline and online) with every list of 0..3 input TEXTS over %d texts (incl. ones that evaluate "
